@@ -189,7 +189,7 @@ def multi_byte_section(rng, mode, run, quick):
     for octets, gaps in directed:
         for tail in (0, 1, 2):
             st.packet(octets, gaps=gaps, tail=tail)
-    for n in (2, 3, 4, 5):
+    for n in ((4, 5) if (mode == "token" and quick) else (2, 3, 4, 5)):
         pats = gap_patterns(n, all_lengths=(n <= 3 or not quick))
         for octets, own in multi_byte_packets(rng, mode, n, counts[n]):
             if own is not None and mode == "token":
